@@ -142,7 +142,7 @@ func extFilters(c *Ctx, f *ssa.Function) []*ssa.If {
 
 func c16FormatFilter(c *Ctx) {
 	comp, uncomp := c.constVal("CompressedChunkExt"), c.constVal("UncompressedChunkExt")
-	for _, f := range c.Funcs {
+	for _, f := range c.subjects() {
 		if f.Pkg != c.LibSSA {
 			continue
 		}
@@ -497,7 +497,7 @@ func c16NameRoundtrip(c *Ctx) {
 		c.verdict(okAll, key+":inverse-of-nameFromID", splits[0].Pos(), "id = TrimSuffix(TrimPrefix(name, s.prefix), ext) split at '/'", why+": idFromName no longer undoes nameFromID; listed chunks are skipped as 'not a chunk' and survive pruning")
 	}
 	cut := 0
-	for _, fn := range c.Funcs {
+	for _, fn := range c.subjects() {
 		for _, call := range calls(fn, named("strings.Trim", "strings.TrimLeft", "strings.TrimRight", "bytes.Trim", "bytes.TrimLeft", "bytes.TrimRight")) {
 			cut++
 			a := call.Common().Args
